@@ -719,7 +719,8 @@ EXTERN_ENUM_FILES = [("src/structured_short_message.rs", ["StructuredShortMessag
                      ("src/parameter_number_message.rs", ["DataType"]),
                      ("src/short_message.rs", ["ShortMessageType", "MessageSuperType", "MessageMainCategory", "FuzzyMessageSuperType",
                                                "TimeCodeQuarterFrame", "TimeCodeType"])]
-EXTERN_CONSTS = {"U7::MIN": "0", "U14::MIN": "0", "U4::MIN": "0", "Channel::MIN": "0", "KeyNumber::MIN": "0",
+EXTERN_CONSTS = {"U7::MAX": "127", "U14::MAX": "16383", "U4::MAX": "15", "Channel::MAX": "15", "KeyNumber::MAX": "127",
+                 "ControllerNumber::MAX": "127", "U7::MIN": "0", "U14::MIN": "0", "U4::MIN": "0", "Channel::MIN": "0", "KeyNumber::MIN": "0",
                  "ControllerNumber::MIN": "0"}
 # methods of types outside the translated files, by (receiver type, method)
 TYPED_METHODS = {
@@ -1592,6 +1593,9 @@ class Gen:
             return k("none", env)
         if len(segs) == 2 and segs[1] == "try_from" and segs[0] in TRY_FROM_U8 and len(e["args"]) == 1:
             return self.E(e["args"][0], env, ctx, lambda v, env2: k("(%s %s)" % (TRY_FROM_U8[segs[0]], v), env2))
+        if len(segs) == 2 and segs[1] == "from" and segs[0] in NAT_TYPES and segs[0] not in CAST_MOD and len(e["args"]) == 1:
+            self.notes.add("`T::from(x)` between Nat-modelled restricted integers is the identity")
+            return self.E(e["args"][0], env, ctx, k)
         if len(segs) == 2 and segs[1] == "from" and segs[0] in CAST_MOD and len(e["args"]) == 1:
             at = self.rtype(e["args"][0], env, ctx)
             if at and at["k"] == "ref": at = at["inner"]
@@ -1930,8 +1934,8 @@ def load_controller_constants():
     s = strip_comments(open(os.path.join(REPO, "src", "controller_number_mod.rs")).read())
     CONTROLLER_CONSTANTS.update(re.findall(r"pub\s+const\s+([A-Z][A-Z0-9_]*)\s*:\s*ControllerNumber", s))
 
-FILES = [("control_change_14_bit_message.rs", "CCMsg", {}),
-         ("parameter_number_message.rs", "PNMsgFile", {}),
+FILES = [("control_change_14_bit_message.rs", "CCMsg", {"trait_impls": [["TryFrom", "ControlChange14BitMessage"]]}),
+         ("parameter_number_message.rs", "PNMsgFile", {"trait_impls": [["TryFrom", "ParameterNumberMessage"]]}),
          ("control_change_14_bit_message_scanner.rs", "CCScan", {}),
          ("parameter_number_message_scanner.rs", "PNScan", {}),
          ("polling_parameter_number_message_scanner.rs", "PollScan", {}),
